@@ -114,7 +114,12 @@ func faultBody(x *explore.Ctx, cfg WConfig, prog int, tier string, id string) {
 	t1 := time.Date(2100, 1, 1, 0, 0, 0, 0, time.UTC)
 	t2 := t1.Add(time.Hour)
 	var env *WEnv
-	var curDL time.Time // value last given to Conn.SetWriteDeadline
+	var curDL time.Time // value given to Conn.SetWriteDeadline before the first call
+	type dlChange struct {
+		call int // index of the first API call issued after the change
+		dl   time.Time
+	}
+	var dlChanges []dlChange
 	invalid := -1
 	invalidPos := ""
 	issueInvalid := func(pos string) {
@@ -181,7 +186,18 @@ func faultBody(x *explore.Ctx, cfg WConfig, prog int, tier string, id string) {
 				invalidPos = "after" // would implicitly close the open writer; issue it between messages instead
 			}
 		}
-		e.Between = issueInvalid
+		// the application changes the write deadline while a message writer is open: frames written
+		// from then on (the final frame written by Close included) go out under the new deadline
+		midDL := x.Choose(4, "SetWriteDeadline-while-writer-open")
+		e.Between = func(pos string) {
+			issueInvalid(pos)
+			if midDL > 0 && pos == []string{"", "after-nextwriter", "between-writes", "before-close"}[midDL] && !env.Failed {
+				t3 := t2.Add(time.Duration(len(dlChanges)+1) * time.Minute)
+				e.C.SetWriteDeadline(t3)
+				dlChanges = append(dlChanges, dlChange{len(e.Calls), t3})
+				x.Obs("SetWriteDeadline(+%dm) before call %d (%s)", len(dlChanges), len(e.Calls), pos)
+			}
+		}
 		issueInvalid("before")
 		if id == "C20" {
 			// a close (or any fatal write error) recorded by another path while a message writer
@@ -209,6 +225,11 @@ func faultBody(x *explore.Ctx, cfg WConfig, prog int, tier string, id string) {
 	// ---- deadline oracle: every transport Write happened under the expected deadline
 	for ci, ac := range e.Calls {
 		want := curDL
+		for _, ch := range dlChanges {
+			if ch.call <= ci {
+				want = ch.dl
+			}
+		}
 		if ac.CtlDL != nil {
 			want = *ac.CtlDL
 		}
